@@ -2,6 +2,7 @@
   C09 — Fee exactness: configured rate at entry, half-up rounding, pro-rata thereafter.
 -/
 import AtsProofs.C17
+import AtsProofs.DecMono
 namespace Ats.Proofs
 open Ats Ats.Spec
 
@@ -273,5 +274,18 @@ theorem C09_init (env : Env) (m : InstMsg) (s : State) (r : Response)
     bid's life the fees paid, refunded and returned add up to the fee escrowed -/
 theorem C09_final_match {b : Bid} {size q f : Nat} (h : BidEffect b size q f) (hsz : size = b.remBase) :
     f = b.remFee ∧ q = b.remQuote := ⟨(h.hfinal hsz).2, (h.hfinal hsz).1⟩
+
+
+/-- the monotonicity of the decimal pro-rata function is a theorem (`Dec.feeFor_mono`) -/
+theorem feeMono_holds : FeeMono :=
+  fun F Q q1 q2 n1 n2 hq h1 h2 => Dec.feeFor_mono F Q q1 q2 n1 n2 hq h1 h2
+
+/-- C09 pro-rata: every accepted request preserves "each fee-bearing open bid holds exactly
+    the fee its unspent quote needs" – so fees paid on fills and returned on refunds, rejects
+    and cancels are pro-rata, and over a bid's life add up exactly to the fee escrowed -/
+theorem C09_prorata (env : Env) (s s' : State) (c : Call) (r : Response)
+    (hs : sane s = true) (hfe : feeExact s = true) (hx : ExactStep s c.msg)
+    (h : execute env s c = .ok (s', r)) : feeExact s' = true :=
+  C09_prorata_partial feeMono_holds env s s' c r hs hfe hx h
 
 end Ats.Proofs
